@@ -9,7 +9,7 @@ use serde_json::{Value, json};
 
 pub static PROP: Prop = Prop {
     id: "C17",
-    rule: "(a) script objects: two object definitions decoded from a proptest choice vector (for each of the six arithmetic operators: absent / present / present-but-throwing-koto.unimplemented, the @r-form, the compound form; any subset of the six comparison keys with fixed consistent answers; @negate, @size, @index, @index_assign, @access, @access_assign, @call, @iterator, @next, @display, @debug, @type, @meta entries; own metamap or one shared through with_meta; an optional @base chain of depth 1-2 carrying data and @meta entries) x one of ~130 operations (every arithmetic operator with the object on either side against a number, string, null, list, the other object or itself; every compound assignment; every comparison; negation; size; index; index assignment; access of own data / @meta / inherited data / inherited @meta / missing keys / iterator functions; access assignment; call; for-iteration; display and debug interpolation). Every metakey function prints who was called with which operands and returns a marker, and the printed call trace and result are compared with a dispatch model written from the guide (LHS first, RHS @r-fallback when the LHS lacks the operator or throws koto.unimplemented, != from @==, <= / > / >= from @< and @==, @next before @iterator, @debug falling back to @display, access order data -> @meta -> @base chain -> iterator functions). (b) host objects: five Rust object types implementing different subsets of the KotoObject interface (nothing, arithmetic on the left, arithmetic on the right, comparisons via less+equal only, everything) combined with each other, script objects and plain values under the same operations; same model, plus: every operation a type does not implement is an error. Non-trivial: a fallback, a derived comparison, a shared or inherited lookup or an error is involved.",
+    rule: "(a) script objects: two object definitions decoded from a proptest choice vector (for each of the six arithmetic operators: absent / present / present-but-throwing-koto.unimplemented, the @r-form, the compound form; any subset of the six comparison keys with fixed consistent answers; @negate, @size, @index, @index_assign, @access, @access_assign, @call, @iterator, @next, @display, @debug, @type, @meta entries; own metamap or one shared through with_meta; an optional @base chain of depth 1-2 carrying data and @meta entries) x one of ~130 operations (every arithmetic operator with the object on either side against a number, string, null, list, the other object or itself; every compound assignment; every comparison; negation; size; index; index assignment; access of own data / @meta / inherited data / inherited @meta / missing keys / iterator functions; access assignment; call; call as the callback of a core-library function (`fold`); for-iteration; display and debug interpolation). Every metakey function prints who was called with which operands and returns a marker, and the printed call trace and result are compared with a dispatch model written from the guide (LHS first, RHS @r-fallback when the LHS lacks the operator or throws koto.unimplemented, != from @==, <= / > / >= from @< and @==, @next before @iterator, @debug falling back to @display, access order data -> @meta -> @base chain -> iterator functions). (b) host objects: five Rust object types implementing different subsets of the KotoObject interface (nothing, arithmetic on the left, arithmetic on the right, comparisons via less+equal only, everything) combined with each other, script objects and plain values under the same operations; same model, plus: every operation a type does not implement is an error. Non-trivial: a fallback, a derived comparison, a shared or inherited lookup or an error is involved.",
     assumptions: &[
         "not judged (guide silent): == / != against null (decided without calling @==), comparisons with the object on the right, compound assignment whose left side is not an object, operators of objects that only inherit them through @base (not inherited), derived comparisons when only one of @< / @== exists or when both answer true, default display of objects without @display, size/index/iteration of objects without the corresponding metakeys (plain map behaviour)",
     ],
@@ -254,6 +254,8 @@ pub enum Operation {
     AccessCall(Operand, String),
     AccessAssign(Operand),
     Call(Operand),
+    /// the object is handed to a core-library function that calls it back (host call path)
+    CallAsCallback(Operand),
     ForLoop(Operand),
     ToTuple(Operand),
     Display(Operand),
@@ -274,6 +276,7 @@ fn operation_source(op: &Operation) -> String {
         Operation::AccessCall(o, k) => format!("  r = show({}.{k}())\n", o.src()),
         Operation::AccessAssign(o) => format!("  x = {}\n  x.newkey = 'v'\n  r = show(map.get(x, 'newkey'))\n", o.src()),
         Operation::Call(o) => format!("  r = show({}(1, 's'))\n", o.src()),
+        Operation::CallAsCallback(o) => format!("  r = show((1,).fold('s0', {}))\n", o.src()),
         Operation::ForLoop(o) => format!("  acc = ''\n  for v in {}\n    acc = acc + '[{{show v}}]'\n  r = acc\n", o.src()),
         Operation::ToTuple(o) => format!("  r = '{{{}.to_tuple()}}'\n", o.src()),
         Operation::Display(o) => format!("  r = 'x{{{}}}y'\n", o.src()),
@@ -623,6 +626,18 @@ fn model(op: &Operation, a: &Spec, b: &Spec, hosts: &[HostCaps]) -> (Expected, b
             Kind::Host(hc, k) => {
                 nontrivial = true;
                 if hc.unary { Exact(vec![format!("call host{k}.call(1, 's')")], format!("'r:host{k}()'")) } else { Error(vec![]) }
+            }
+            Kind::Other if matches!(o, Operand::A | Operand::B) => Error(vec![]),
+            _ => Unjudged,
+        },
+        Operation::CallAsCallback(o) => match kind(o, a, b, hosts) {
+            Kind::Script(s, id) => {
+                nontrivial = true;
+                if s.call { Exact(vec![format!("call {id}.@call('s0', 1)")], format!("'r:{id}()'")) } else { Error(vec![]) }
+            }
+            Kind::Host(hc, k) => {
+                nontrivial = true;
+                if hc.unary { Exact(vec![format!("call host{k}.call('s0', 1)")], format!("'r:host{k}()'")) } else { Error(vec![]) }
             }
             Kind::Other if matches!(o, Operand::A | Operand::B) => Error(vec![]),
             _ => Unjudged,
@@ -989,6 +1004,7 @@ fn op_class(op: &Operation) -> &'static str {
         Operation::AccessCall(..) => "access-call",
         Operation::AccessAssign(..) => "access-assign",
         Operation::Call(..) => "call",
+        Operation::CallAsCallback(..) => "call-as-callback",
         Operation::ForLoop(..) => "for",
         Operation::ToTuple(..) => "to-tuple",
         Operation::Display(..) => "display",
@@ -1036,6 +1052,7 @@ pub fn all_operations() -> Vec<Operation> {
         ops.push(Operation::IndexAssign(subj.clone()));
         ops.push(Operation::AccessAssign(subj.clone()));
         ops.push(Operation::Call(subj.clone()));
+        ops.push(Operation::CallAsCallback(subj.clone()));
         ops.push(Operation::ForLoop(subj.clone()));
         ops.push(Operation::ToTuple(subj.clone()));
         ops.push(Operation::Display(subj.clone()));
